@@ -106,12 +106,13 @@ def specialise_class_constants(ct) -> list[str]:
 
             # feasibility of every copy before anything is changed
             plan = []
+            planned: set[str] = set()
             held = {b.qualname: key(values_for(b))}
             feasible = True
             for k in family[1:]:
                 r = ct.lookup(k, mname)
-                if r is None or r[1] is not fn:
-                    continue  # overridden on the way down
+                if r is None or (r[1] is not fn and r[0].qualname not in planned):
+                    continue  # overridden on the way down (a copy planned for an ancestor is still this method)
                 src = next((c for c in ct.mro(k)[1:] if c.qualname in held), b)
                 vals = values_for(k)
                 if key(vals) == held[src.qualname]:
@@ -126,6 +127,7 @@ def specialise_class_constants(ct) -> list[str]:
                 if not feasible:
                     break
                 held[k.qualname] = key(vals)
+                planned.add(k.qualname)
                 plan.append((k, vals))
             bvals = values_for(b)
             for x, (c, e) in bvals.items():
